@@ -6,6 +6,7 @@
 //!           child's stdout (what the default logger printed) is captured by the parent
 //!   free  = threads run freely (no turn-taking) with channel 0 installed for the whole run; only
 //!           the per-thread event subsequences (keyed by the `tid` tag) are observed
+//! case:  race <iters>   see run_race
 //! In prog/child mode the steps are executed one at a time in the given global order (the conductor
 //! hands the turn to the step's thread and waits for it), so the linearisation is the case's order.
 //! actions:
@@ -438,6 +439,98 @@ fn run_free(toks: &[&str]) -> String {
     out
 }
 
+/// race <iters>: in a fresh process, `iters` times from the state "no logger": one thread makes a logging call
+/// (which starts the stdout default) while the main thread installs a channel logger, the two released together
+/// with swept offsets of a few microseconds.  Whatever the interleaving: the install succeeds (a default is
+/// replaced), the event of the racing call is delivered exactly once (to the default or to the channel), the
+/// logging call made AFTER both finished is delivered to the installed channel, and dropping the guard works.
+/// observation: race <iters> bad=<number of iterations that broke one of these> first=<what broke first>
+fn run_race(iters: usize) -> String {
+    fn spin(us: u64) {
+        let t0 = std::time::Instant::now();
+        while t0.elapsed() < Duration::from_micros(us) {
+            std::hint::spin_loop();
+        }
+    }
+    let msg_of = |e: &LogEvent| -> String {
+        let mut out = Vec::new();
+        e.write_jsonl(&mut out).unwrap();
+        String::from_utf8_lossy(&out).to_string()
+    };
+    let mut bad = 0usize;
+    let mut first = "-".to_string();
+    for it in 0..iters {
+        let (tx, rx) = sync_channel::<LogEvent>(16);
+        let barrier = Arc::new(Barrier::new(2));
+        let b2 = barrier.clone();
+        let a_msg = format!("racing-a{it}");
+        let z_msg = format!("after-z{it}");
+        let a_msg2 = a_msg.clone();
+        let a = std::thread::spawn(move || {
+            b2.wait();
+            spin((it as u64 % 8) * 4);
+            catch_unwind(AssertUnwindSafe(|| servlin::log::info(a_msg2, ()))).is_ok()
+        });
+        barrier.wait();
+        spin(((it as u64 / 8) % 24) * 4);
+        let g = set_global_logger(tx.clone());
+        let a_ok = a.join().unwrap_or(false);
+        let mut why: Vec<&str> = Vec::new();
+        if !a_ok {
+            why.push("racing-call-panicked");
+        }
+        if g.is_err() {
+            why.push("install-refused");
+        }
+        let z_ok = catch_unwind(AssertUnwindSafe(|| servlin::log::info(z_msg.clone(), ()))).is_ok();
+        if !z_ok {
+            why.push("later-call-panicked");
+        }
+        let mut a_chan = 0;
+        let mut z_chan = 0;
+        while z_chan == 0 {
+            match rx.recv_timeout(Duration::from_millis(300)) {
+                Ok(e) => {
+                    let m = msg_of(&e);
+                    if m.contains(&format!("\"msg\":\"{a_msg}\"")) {
+                        a_chan += 1;
+                    } else if m.contains(&format!("\"msg\":\"{z_msg}\"")) {
+                        z_chan += 1;
+                    } else {
+                        why.push("foreign-event-on-channel");
+                    }
+                }
+                Err(_) => break,
+            }
+        }
+        if g.is_ok() && z_chan != 1 {
+            why.push("later-event-not-delivered-to-the-installed-logger");
+        }
+        let count_def = |m: &str| CAPTURED.lock().unwrap().iter().filter(|l| l.contains(&format!("\"msg\":\"{m}\""))).count();
+        if a_chan == 0 {
+            let t0 = std::time::Instant::now();
+            while count_def(&a_msg) == 0 && t0.elapsed() < Duration::from_millis(500) {
+                std::thread::sleep(Duration::from_micros(200));
+            }
+        }
+        if a_chan + count_def(&a_msg) != 1 {
+            why.push("racing-event-not-delivered-exactly-once");
+        }
+        if catch_unwind(AssertUnwindSafe(|| drop(g))).is_err() {
+            why.push("guard-drop-panicked");
+        }
+        if !why.is_empty() {
+            bad += 1;
+            if first == "-" {
+                first = why.join("+");
+            }
+            // back to the state "no logger" for the next round
+            *lock_global_logger() = servlin::log::internal::GlobalLoggerState::None;
+        }
+    }
+    format!("race {iters} bad={bad} first={first}")
+}
+
 /// Runs a `child` case in a fresh process and splices what the default stdout logger printed.
 fn run_in_child(toks: &[&str]) -> String {
     let exe = std::env::current_exe().unwrap();
@@ -499,6 +592,12 @@ fn main() {
         stdin.lock().read_line(&mut line).unwrap();
         let toks: Vec<&str> = line.split_ascii_whitespace().collect();
         capture_stdout();
+        if toks[0] == "race" {
+            eprintln!("{}", run_race(toks[1].parse().unwrap()));
+            let mut sink = String::new();
+            let _ = stdin.lock().read_to_string(&mut sink);
+            return;
+        }
         let obs = run_turns(&toks[1..], true);
         std::thread::sleep(Duration::from_millis(20)); // lines nobody waited for (there should be none)
         let lines = CAPTURED.lock().unwrap().clone();
@@ -510,7 +609,7 @@ fn main() {
     }
     run_lines_marked(|toks| match toks[0] {
         "prog" => run_turns(&toks[1..], false),
-        "child" => run_in_child(toks),
+        "child" | "race" => run_in_child(toks),
         "free" => run_free(&toks[1..]),
         _ => "?".to_string(),
     });
